@@ -218,7 +218,23 @@ def main(argv=None):
             errors.append((ob, v.detail))
             continue
         if v.status == be.UNKNOWN:
-            undecided.append(ob)
+            # undecided (time-out / incomplete / out of subset): never a violation by itself.  The obligation's
+            # bounded search on the real code (its replay with an empty witness) decides whether a concrete failing
+            # input exists; only then is it reported, with that input.
+            rep = None
+            if ob.replay is not None:
+                try:
+                    rep = ob.replay({})
+                except Exception as e:  # noqa: BLE001
+                    rep = None
+            if rep and rep.get("reproduced"):
+                path = os.path.join("replays", f"{prop}-{ob.id.replace('/', '_')}.json")
+                json.dump(jsonable({"property": prop, "obligation": ob.id, "statement": ob.statement, "functions": ob.functions, "backend": v.backend,
+                                    "prover_output": "UNDECIDED by the prover (" + (v.detail or "")[:300] + "); concrete failing input found by the obligation's bounded search on the real code",
+                                    "witness": {}, "replay": rep, "bounded": False}), open(os.path.join(ROOT, path), "w"), indent=1)
+                violations.append((ob, path, True))
+            else:
+                undecided.append(ob)
             continue
         # REFUTED: replay the witness on the real code
         rep = None
